@@ -351,7 +351,120 @@ def check_abandoned(ctx, R="C13.abandon"):
         ctx.finding(R, isb, "duration condition", "the `for` duration condition is no longer `currentTime - startTime >= timeLimit` with seconds divided by the timestep")
 
 
+def check_flags(ctx, R="C13.flags"):
+    ctx.rule(
+        R,
+        "re-entrant compiler state: the visitors of the Scenic-to-Python transformer are re-entered for nested statements, so (a) an "
+        "attribute a visitor saves into a local and then overwrites is restored from that local afterwards; (b) an attribute a visitor resets "
+        "at entry, lets the nested visits set, and reads afterwards (usedBreak / usedContinue) is saved before the reset and restored after "
+        "it was read -- otherwise a nested try-interrupt clobbers the flags of the enclosing one; (c) the break / continue / return statements "
+        "a visitor emits into the ENCLOSING context are themselves passed through self.visit, so that inside an enclosing interrupt block "
+        "they conclude that block instead of being executed inside its function",
+    )
+    model = ctx.model
+    ci = model.cls(CO, "ScenicToPythonTransformer")
+    n_saved = 0
+    for mname, fn in ci.methods.items():
+        # statements of the method itself, in order (nested helper functions excluded)
+        stmts = [s_ for s_ in walk_local(fn) if isinstance(s_, ast.stmt)]
+        stmts.sort(key=lambda s_: (s_.lineno, s_.col_offset))
+
+        def attr_targets(t):
+            if isinstance(t, ast.Attribute) and isinstance(t.value, ast.Name) and t.value.id == "self":
+                return [(t.attr, None)]
+            if isinstance(t, ast.Tuple):
+                return [(e.attr, i) if isinstance(e, ast.Attribute) and isinstance(e.value, ast.Name) and e.value.id == "self" else (None, i) for i, e in enumerate(t.elts)]
+            return []
+
+        saves = {}  # attr -> (local, stmt)
+        writes = {}  # attr -> [(stmt, value expr)]
+        for s_ in stmts:
+            if not isinstance(s_, ast.Assign) or len(s_.targets) != 1:
+                continue
+            t, v = s_.targets[0], s_.value
+            # saves: old = self.A   /   o1, o2 = self.A, self.B
+            if isinstance(t, ast.Name) and isinstance(v, ast.Attribute) and isinstance(v.value, ast.Name) and v.value.id == "self":
+                saves.setdefault(v.attr, (t.id, s_))
+            elif isinstance(t, ast.Tuple) and isinstance(v, ast.Tuple) and len(t.elts) == len(v.elts):
+                for te, ve in zip(t.elts, v.elts):
+                    if isinstance(te, ast.Name) and isinstance(ve, ast.Attribute) and isinstance(ve.value, ast.Name) and ve.value.id == "self":
+                        saves.setdefault(ve.attr, (te.id, s_))
+            # writes
+            for a_, i in attr_targets(t):
+                if a_ is None:
+                    continue
+                val = v.elts[i] if i is not None and isinstance(v, ast.Tuple) and len(v.elts) == len(t.elts) else v if i is None else None
+                writes.setdefault(a_, []).append((s_, val))
+        recursive = [c for c in ast.walk(fn) if isinstance(c, ast.Call) and isinstance(c.func, ast.Attribute) and isinstance(c.func.value, ast.Name) and c.func.value.id == "self" and c.func.attr in ("visit", "generic_visit")]
+        if not recursive:
+            continue
+        last_rec = max(c.lineno for c in recursive)
+        first_rec = min(c.lineno for c in recursive)
+        # (a) saved but not restored
+        for a_, (loc, sst) in saves.items():
+            over = [w for w, val in writes.get(a_, []) if w.lineno > sst.lineno and not (isinstance(val, ast.Name) and val.id == loc)]
+            if not over:
+                continue
+            n_saved += 1
+            restored = [w for w, val in writes.get(a_, []) if isinstance(val, ast.Name) and val.id == loc and w.lineno > over[0].lineno]
+            if restored:
+                ctx.ok(R, sst, f"{mname}: self.{a_} is saved in `{loc}` and restored")
+            else:
+                ctx.finding(R, sst, f"{mname}: self.{a_} saved but not restored", f"ScenicToPythonTransformer.{mname} saves self.{a_} in `{loc}` and overwrites it, but never assigns `{loc}` back: after a nested statement the enclosing statement is compiled with the nested one's value of {a_}")
+        # (b) reset at entry, read after the nested visits, but not saved
+        for a_, ws in writes.items():
+            resets = [w for w, val in ws if w.lineno < first_rec and isinstance(val, ast.Constant)]
+            if not resets or a_ in saves:
+                continue
+            reads_after = [x for x in walk_local(fn) if isinstance(x, ast.Attribute) and x.attr == a_ and isinstance(x.ctx, ast.Load) and isinstance(x.value, ast.Name) and x.value.id == "self" and x.lineno > first_rec]
+            if reads_after:
+                ctx.finding(
+                    R,
+                    resets[0],
+                    f"{mname}: self.{a_} reset and read without saving",
+                    f"ScenicToPythonTransformer.{mname} resets self.{a_}, visits its sub-statements (which may set it, and may contain another statement of the same kind that resets it again) and "
+                    f"then reads it: a nested statement clobbers the flag, e.g. a `continue` in one handler is dropped when a later handler contains a nested try-interrupt",
+                )
+    ctx.floor(R, n_saved, 4, "saved-and-overwritten compiler attributes")
+    # (c) emitted control flow
+    vis = ci.methods["visit_TryInterrupt"]
+    parents = {}
+    for p_ in ast.walk(vis):
+        for c_ in ast.iter_child_nodes(p_):
+            parents[id(c_)] = p_
+    nested_defs = [f for f in ast.walk(vis) if isinstance(f, ast.FunctionDef) and f is not vis]
+    inside_nested = {id(x) for f in nested_defs for x in ast.walk(f)}
+    n_cf = 0
+    for c in ast.walk(vis):
+        if not (isinstance(c, ast.Call) and dotted(c.func) in ("ast.Break", "ast.Continue", "ast.Return")) or id(c) in inside_nested:
+            continue
+        n_cf += 1
+        # is it (through copy_location / a local) the argument of self.visit?
+        cur, wrapped = c, False
+        seen_names = set()
+        for _ in range(6):
+            par = parents.get(id(cur))
+            if isinstance(par, ast.Call) and dotted(par.func) == "self.visit":
+                wrapped = True
+                break
+            if isinstance(par, ast.Call) and dotted(par.func) == "ast.copy_location":
+                cur = par
+                continue
+            if isinstance(par, ast.Assign) and isinstance(par.targets[0], ast.Name):
+                nm = par.targets[0].id
+                uses = [u for u in ast.walk(vis) if isinstance(u, ast.Name) and u.id == nm and isinstance(u.ctx, ast.Load)]
+                wrapped = any(isinstance(parents.get(id(u)), ast.Call) and dotted(parents[id(u)].func) == "self.visit" for u in uses)
+                break
+            break
+        if wrapped:
+            ctx.ok(R, c, f"visit_TryInterrupt: the emitted `{unparse(c)[:40]}` is visited in the enclosing context")
+        else:
+            ctx.finding(R, c, f"visit_TryInterrupt emits raw {dotted(c.func)}", f"visit_TryInterrupt emits `{norm_text(c, 60)}` into the enclosing context without self.visit: when the statement is nested in a block of another try-interrupt, the `{dotted(c.func).split('.')[-1].lower()}` is executed inside that block's function ('break outside loop' / a return that only leaves the block)")
+    ctx.floor(R, n_cf, 3, "control-flow statements emitted by visit_TryInterrupt")
+
+
 def check(ctx):
+    check_flags(ctx)
     check_priority(ctx)
     check_resume(ctx)
     check_invariants(ctx)
